@@ -19,6 +19,7 @@ RULE = (
     "an interior position after >= 1 successful write, or a second edit on top of a first"
     ' Also (added while the seeded-change rounds of DESIGN section 9 ran): Notes may be copied from another pattern (clone / deepcopy); generator-style and plain-function callables (the latter may fail before supplying anything); scribbles also walk the scratch array.'
 )
+RULE += " Rounds 12-14 of DESIGN section 9 added: notes supplied by the callable and found installed belonged to the pattern when the edit returned (before it was read); notes still sitting in another pattern as a source; patterns of projects written as older-version files and loaded; module numbers that need more than 8 bits."
 ASSUMPTIONS = [
     "the supplied callable returns a fresh Note for every cell (as the docstring expects); notes owned by other patterns are not supplied",
     "after a failed edit the contents (cell tuples, raw_data) are claimed unchanged; identity of the internal list is not claimed",
